@@ -1298,6 +1298,16 @@ fn run_inner(sc: &J) -> Result<Option<String>, String> {
             }
             Ok(None)
         }
+        // C05/C14: arbitrary bytes handed to the container reader (hex): never a panic or a hang (wrapper); `expect` = "error" | "ok"
+        "open_container_bytes" => {
+            let bytes = jhex(sc, "bytes");
+            let r = apache_avro::Reader::new(&bytes[..]).map(|rd| rd.take(1000).collect::<Vec<_>>());
+            match (sc["expect"].as_str(), &r) {
+                (Some("error"), Ok(items)) if !items.iter().any(|i| i.is_err()) => Ok(Some(format!("the bytes were read as a container file with {} values and no error", items.len()))),
+                (Some("ok"), Err(e)) => Ok(Some(format!("a spec-conforming file is rejected: {e}"))),
+                _ => Ok(None),
+            }
+        }
         // C04: the metadata map of the header — every user key the writer accepted comes back from Reader::user_metadata() with
         // its bytes (keys merely STARTING with "avro" are not reserved: only the "avro." namespace is); reserved keys are
         // refused by the writer; a hand-built file with an unknown "avro.x" key and user keys split over two map blocks is read
